@@ -12,7 +12,9 @@ Three layers:
 import RB.Proofs.Lemmas.Identity
 import RB.Proofs.Lemmas.Text
 import RB.Proofs.Lemmas.DataFile
+import RB.Proofs.Lemmas.TextLoader
 import RB.Model.Session
+import RB.Proofs.C15
 
 namespace RB.Identity
 
@@ -105,6 +107,50 @@ theorem c07_fmt6_bound (q : Rat) : ∃ v, readFixed (fmt6 q) = some v ∧ |v - q
     constructor <;> linarith [this.1, this.2]
   · simp only [h, if_false]
     exact ⟨_, readFixed_fmtMicro _, roundMicro_bound q (by linarith)⟩
+
+/-- what the next session reads back for a sample written with `"%f"` -/
+def reloadVal (q : Rat) : Rat := (readFixed (fmt6 q)).getD 0
+
+theorem reloadVal_bound (q : Rat) : |reloadVal q - q| ≤ 1 / 2000000 := by
+  obtain ⟨v, hv, hb⟩ := c07_fmt6_bound q
+  simpa [reloadVal, hv] using hb
+
+theorem sum_reload_bound (xs : List Rat) :
+    |RB.Stats.sum (xs.map reloadVal) - RB.Stats.sum xs| ≤ (xs.length : Rat) * (1 / 2000000) := by
+  induction xs with
+  | nil => simp [RB.Stats.sum_nil]
+  | cons x xs ih =>
+    simp only [List.map_cons, RB.Stats.sum_cons, List.length_cons]
+    have hx := reloadVal_bound x
+    rw [abs_le] at hx ih ⊢
+    push_cast
+    constructor <;> linarith [hx.1, hx.2, ih.1, ih.2]
+
+/-- `stats_reload`: a session that reloads the samples recorded by an earlier
+one (each written with `"%f"`, read with `float`) computes the same sample
+count, and a mean within `5·10⁻⁷` of the recording session's mean — with the
+streaming statistics of C15 on both sides. -/
+theorem c07_stats_reload (xs : List Rat) (h : xs ≠ []) :
+    (RB.Stats.addAll RB.Stats.init (xs.map reloadVal)).n = (RB.Stats.addAll RB.Stats.init xs).n ∧
+    |(RB.Stats.addAll RB.Stats.init (xs.map reloadVal)).mean - (RB.Stats.addAll RB.Stats.init xs).mean|
+      ≤ 1 / 2000000 := by
+  have h' : xs.map reloadVal ≠ [] := by simpa using h
+  refine ⟨by rw [RB.Stats.c15_count, RB.Stats.c15_count]; simp, ?_⟩
+  rw [RB.Stats.c15_mean _ h, RB.Stats.c15_mean _ h']
+  unfold RB.Stats.tmean
+  have hn : (0 : Rat) < (xs.length : Rat) := by
+    have : 0 < xs.length := List.length_pos_of_ne_nil h
+    exact_mod_cast this
+  simp only [List.length_map]
+  rw [← sub_div]
+  have hs := sum_reload_bound xs
+  rw [abs_le] at hs ⊢
+  constructor
+  · rw [le_div_iff₀ hn]; linarith [hs.1]
+  · rw [div_le_iff₀ hn]; linarith [hs.2]
+
+-- non-vacuity
+example : ([25 / 2, 1 / 3] : List Rat) ≠ [] := by simp
 
 theorem sepFree_noTab {s : List Char} (h : sepFree s = true) : '\t' ∉ s := by
   intro hm
@@ -247,6 +293,58 @@ in `assert benchmark not in self._benchmarks_in_file` -/
 theorem c07_ids_inplace_env_fails :
     errOf (load rtEx rtEx s1Ex) = none ∧ benchIds s2Ex = [0, 1] ∧
     errOf (load rtEx rtEx s2Ex) = some .assertBenchDup := by
+  decide +kernel
+
+/-- The text-level loader — rendering with the run's columns, universal
+newlines, tab splitting, `int` / `float`, the open data point with its
+`UIError` — and the abstract loader agree on every file that any number of
+sessions produced from data points as the adapters build them (separator-free
+strings, one `total`, last: `DPOk`).  So every theorem stated with `load`
+(`c06_*` over `Reach`, `c07_load_persist`, `c07_ids_consecutive`,
+`c08_resume_equiv`) speaks about what is really read back; outside `DPOk` the
+two differ, which is what the `…_fails` witnesses above and the known findings
+record, and there the correspondence check compares the implementation with
+`loadT`. -/
+theorem c07_textLoader_agrees (colsOf : κ → List (List Char)) {c : List (Line κ β)}
+    (h : ReachOk benchOf colsOf c) :
+    loadT colsOf (fun x => x) (fun x => x) c = load (fun x => x) (fun x => x) c := by
+  obtain ⟨T, ls, d, h1, h2, _⟩ := reachOk_loadT benchOf colsOf h
+  unfold loadT
+  rw [h2, h1]
+
+/-- … hence a session that reads such files at text level is the session of the abstract model -/
+theorem c07_sessionT_agrees (colsOf : κ → List (List Char)) (cfg : List (RB.Session.RunC κ))
+    (H : RB.Session.Harness) (sched : RB.Session.Sched) (order choices : List Nat) (stop : Option Nat)
+    (contents : List (List (Line κ β))) (h : ∀ c ∈ contents, ReachOk benchOf colsOf c) :
+    RB.Session.sessionT benchOf colsOf (fun x => x) (fun x => x) cfg H sched order choices stop contents =
+      RB.Session.session benchOf (fun x => x) (fun x => x) cfg H sched order choices stop contents := by
+  have hall : RB.Session.loadAllWith (loadT colsOf (fun x => x) (fun x => x)) contents =
+      RB.Session.loadAll (fun x => x) (fun x => x) contents := by
+    unfold RB.Session.loadAll
+    induction contents with
+    | nil => rfl
+    | cons c cs ih =>
+      simp only [RB.Session.loadAllWith]
+      rw [c07_textLoader_agrees benchOf colsOf (h c (by simp)), ih (fun x hx => h x (by simp [hx]))]
+  unfold RB.Session.sessionT RB.Session.session RB.Session.sessionWith
+  rw [hall]
+
+-- non-vacuity: a well-formed data point
+example : DPOk (fun _ : Nat => ["B".toList, "E".toList]) 0
+    { inv := 1, it := 1, ms := [{ crit := "mem", unit := "kb", value := .flt 3 },
+                                 { crit := "total", unit := "ms", value := .flt (25 / 2) }] } :=
+  ⟨by intro c hc; simp at hc; rcases hc with rfl | rfl <;> decide,
+   by intro m hm; simp at hm; rcases hm with rfl | rfl <;> exact ⟨⟨_, rfl⟩, by decide, by decide⟩,
+   ⟨[{ crit := "mem", unit := "kb", value := .flt 3 }], { crit := "total", unit := "ms", value := .flt (25 / 2) },
+    rfl, rfl, by intro m hm; simp at hm; subst hm; decide⟩⟩
+
+/-- the same histories outside `DPOk`: a criterion with a tab reloads under another name, and a data point
+whose only `total` line is cut by a carriage return in its unit never completes — `loadT` shows it, `load` cannot -/
+theorem c07_textLoader_differs :
+    let dp : DP := { inv := 1, it := 1, ms := [{ crit := "total", unit := "ms\r", value := .flt 1 }] }
+    let c := (persist (fun k : Nat => k) 0 dp (FP.ofTables [] emptyTables)).content
+    (match loadT (fun _ : Nat => []) (fun x => x) (fun x => x) c with | .ok r => r.2.length | .error _ => 99) = 0 ∧
+    (match load (fun x : Nat => x) (fun x : Nat => x) c with | .ok r => r.2.length | .error _ => 99) = 1 := by
   decide +kernel
 
 /-- "its sample count … equal[s] that of the recording session" fails for a
